@@ -83,6 +83,9 @@ type State struct {
 	entryHeap map[string]Term // always empty map with epoch 0 (entry state)
 	held     map[string]bool
 	dirty    map[string]dirtyObj
+	errs     []errRec
+	facts    map[string]bool
+	defs     map[string]string
 }
 
 type dirtyObj struct {
@@ -111,6 +114,14 @@ func (st *State) clone() *State {
 	n.held = make(map[string]bool, len(st.held))
 	for k, v := range st.held {
 		n.held[k] = v
+	}
+	n.defs = make(map[string]string, len(st.defs))
+	for k, v := range st.defs {
+		n.defs[k] = v
+	}
+	n.facts = make(map[string]bool, len(st.facts))
+	for k, v := range st.facts {
+		n.facts[k] = v
 	}
 	n.dirty = make(map[string]dirtyObj, len(st.dirty))
 	for k, v := range st.dirty {
@@ -158,8 +169,15 @@ func (fv *FV) def(st *State, prefix string, t Term) Term {
 	if len(t.S) < 40 {
 		return t
 	}
+	if n, ok := st.defs[t.S]; ok {
+		return Term{S: n, Sort: t.Sort, T: t.T}
+	}
 	n := fv.fresh(prefix)
 	st.emit(fmt.Sprintf("(define-fun %s () %s %s)", n, t.Sort, t.S))
+	if st.defs == nil {
+		st.defs = map[string]string{}
+	}
+	st.defs[t.S] = n
 	return Term{S: n, Sort: t.Sort, T: t.T}
 }
 
@@ -215,6 +233,10 @@ func (fv *FV) markDirty(st *State, ref Term, structT types.Type) {
 // assumeTypeInv: a reference of pointer type obtained from a parameter, the heap or a callee
 // denotes an object satisfying its type invariant, unless it is one this activation is mutating.
 func (fv *FV) assumeTypeInv(st *State, ref Term, ptrT types.Type) {
+	fv.assumeTypeInvIf(st, tTrue, ref, ptrT)
+}
+
+func (fv *FV) assumeTypeInvIf(st *State, cond Term, ref Term, ptrT types.Type) {
 	el, ok := isPtr(ptrT)
 	if !ok {
 		return
@@ -225,7 +247,7 @@ func (fv *FV) assumeTypeInv(st *State, ref Term, ptrT types.Type) {
 	}
 	var errs []string
 	inv := fv.typeInvTerm(st, ti, ref, el, &errs)
-	guards := []Term{tNot(tEq(ref, mkInt(0)))}
+	guards := []Term{cond, tNot(tEq(ref, mkInt(0)))}
 	for _, k := range sortedKeys(st.dirty) {
 		d := st.dirty[k]
 		if types.Identical(d.T, el) {
